@@ -424,9 +424,20 @@ class PathSum(object):
                              rel(fi.path))
 
     # -- entry -------------------------------------------------------------
-    def run(self, fi, args=None, self_term=None, heap=None):
+    def run(self, fi, args=None, self_term=None, heap=None, exact_self=None):
         """Path summaries of fi called with symbolic arguments (default: one
-        symbol per parameter); `heap` pre-sets attribute values."""
+        symbol per parameter); `heap` pre-sets attribute values.  exact_self:
+        the receiver is an instance of exactly this class (a class-level
+        constant then resolves through *its* MRO, whatever subclasses or
+        superclasses define under the same name)."""
+        self.exact_self = (exact_self, fi.params[0]) if exact_self is not \
+            None and fi.params else None
+        try:
+            return self._run(fi, args, self_term, heap)
+        finally:
+            self.exact_self = None
+
+    def _run(self, fi, args=None, self_term=None, heap=None):
         st = St()
         if heap:
             st.heap.update(heap)
@@ -1985,6 +1996,9 @@ class PathSum(object):
                     return self._literal(ent[1], ent[2], depth + 1)
                 finally:
                     self._lit_scope = scope
+            if ent is None and isinstance(e, ast.Name) and (
+                    e.id in BUILTIN_EXC or e.id in PURE_BUILTINS):
+                return ('builtin', e.id)      # EOFError, int, ... in a table
         return None
 
     def _property(self, b, attr, fi, node, which='getter'):
@@ -2205,7 +2219,12 @@ class PathSum(object):
                         return [(st, v)]
             return [(st, ('attr', b, attr))]
         ci = None
-        if b[0] == 'obj' and b[3] is not None:
+        exact = False
+        xs = getattr(self, 'exact_self', None)
+        if xs is not None and b == ('sym', xs[1]) and self.stack and \
+                self.stack[0].params and self.stack[0].params[0] == xs[1]:
+            ci, exact = xs[0], True
+        elif b[0] == 'obj' and b[3] is not None:
             ci = b[3]
         elif b[0] in ('sym', 'attr', 'elem', 'phi', 'call'):
             ci = self._static_class(b, fi, node.value if isinstance(
@@ -2225,6 +2244,12 @@ class PathSum(object):
                     if ent.kind in ('class', ):
                         return [(st, ('fn', ent, ('cls', ci)))]
                     return [(st, ('fn', ent, b))]
+                if isinstance(ent, tuple) and ent[0] == 'value' and exact \
+                        and not any(self.cg.fields.get((k, attr))
+                                    for k in self.db.mro(ci)):
+                    v = self._class_literal(ent, ad.owner)
+                    if v is not None:
+                        return [(st, v)]
                 if isinstance(ent, tuple) and ent[0] == 'value' and (
                         b[0] == 'obj' or not (any(
                             self.cg.fields.get((k, attr))
@@ -3106,6 +3131,18 @@ class PathSum(object):
                 ast.copy_location(t, n)
                 ast.fix_missing_locations(t)
                 return self.try_(t, st, fi)
+            if ft is not None and ft[0] == 'cls' and isinstance(
+                    ft[1], ClassInfo) and not ce.args and not ce.keywords:
+                typ = self._exit_filter(ft[1], fi)
+                if typ is not None:
+                    # with C(): body  ==  try: body / except E: pass, for a
+                    # class whose __exit__ suppresses exactly the E's
+                    t = ast.Try(body=n.body, handlers=[ast.ExceptHandler(
+                        type=typ, name=None, body=[ast.Pass()])], orelse=[],
+                        finalbody=[])
+                    ast.copy_location(t, n)
+                    ast.fix_missing_locations(t)
+                    return self.try_(t, st, fi)
         states = [st]
         ctxs = []
         for item in n.items:
@@ -3135,6 +3172,74 @@ class PathSum(object):
                     self.emit(s, Ev('exit', n, fi, s, ctx=c))
             s.outcome = oc
         return dead + outs
+
+    def _exit_filter(self, ci, fi):
+        """For an in-repo context-manager class without state whose
+        __enter__ does nothing and whose __exit__ is `return t is not None
+        and issubclass(t, E)` (or `isinstance(v, E)`): the expression E,
+        provided it means the same in fi's module; else None.  A class with
+        an __exit__ of another shape is not interpreted (analysis error: it
+        may suppress anything)."""
+        ex = self.db.find_method(ci, '__exit__')
+        en = self.db.find_method(ci, '__enter__')
+        if ex is None or en is None:
+            return None
+        if ci.module is not fi.module:
+            raise AnalysisError('context manager %s from another module is '
+                                'not interpreted' % ci.qualname, ex.node,
+                                rel(ex.path))
+
+        def trivial(body):
+            body = [b for b in body if not (isinstance(b, ast.Expr)
+                                            and isinstance(b.value,
+                                                           ast.Constant))]
+            return all(isinstance(b, ast.Pass) or (
+                isinstance(b, ast.Return) and (b.value is None or (
+                    isinstance(b.value, ast.Name)
+                    and b.value.id == en.params[0]) or (
+                        isinstance(b.value, ast.Constant)
+                        and b.value.value is None))) for b in body)
+        if not trivial(en.body) or self.db.find_method(ci, '__init__') \
+                is not None:
+            raise AnalysisError('context manager %s: __enter__ / __init__ '
+                                'with effects is not interpreted'
+                                % ci.qualname, en.node, rel(en.path))
+        body = [b for b in ex.body if not (isinstance(b, ast.Expr)
+                                           and isinstance(b.value,
+                                                          ast.Constant))]
+        if len(ex.params) != 4 or len(body) != 1 or not isinstance(
+                body[0], ast.Return) or body[0].value is None:
+            raise AnalysisError('context manager %s: __exit__ of this shape '
+                                'is not interpreted' % ci.qualname, ex.node,
+                                rel(ex.path))
+        t, v = ex.params[1], ex.params[2]
+        e = body[0].value
+
+        def sub_or_inst(x):
+            if isinstance(x, ast.Call) and isinstance(x.func, ast.Name) and \
+                    len(x.args) == 2 and not x.keywords and isinstance(
+                        x.args[0], ast.Name):
+                if x.func.id == 'issubclass' and x.args[0].id == t:
+                    return x.args[1]
+                if x.func.id == 'isinstance' and x.args[0].id == v:
+                    return x.args[1]
+            return None
+        typ = sub_or_inst(e)
+        if typ is None and isinstance(e, ast.BoolOp) and isinstance(
+                e.op, ast.And) and len(e.values) == 2:
+            g, r = e.values
+            guard_ok = isinstance(g, ast.Compare) and len(g.ops) == 1 and \
+                isinstance(g.ops[0], ast.IsNot) and isinstance(
+                    g.left, ast.Name) and g.left.id in (t, v) and \
+                isinstance(g.comparators[0], ast.Constant) and \
+                g.comparators[0].value is None
+            if guard_ok:
+                typ = sub_or_inst(r)
+        if typ is None:
+            raise AnalysisError('context manager %s: __exit__ of this shape '
+                                'is not interpreted' % ci.qualname, ex.node,
+                                rel(ex.path))
+        return typ
 
     def handler_match(self, h, exc, st, fi):
         """True / False / None: does handler h catch exception term exc?"""
